@@ -70,7 +70,9 @@ def abstract(f, jc_terms):
     def fn(a):
         v = classify(a, jc_terms)
         if v is None:
-            if a not in unknown:
+            # a presence test re-made inside the applying loop (versioned by the walker) is a free fact of its own, not a
+            # modelling gap: it stays in the formula and the comparison with the specification stays an equivalence
+            if not (a[0] == 'is' and a[1][0] == 'get' and isinstance(a[1][1], tuple) and a[1][1][:1] == ('ver',)) and a not in unknown:
                 unknown.append(a)
             return Atom(a)
         return V(v)
